@@ -5,16 +5,21 @@ package main
 // ignore lists, non-interference of rounds interleaved on one board.
 
 import (
+	"bytes"
+	"crypto/ed25519"
 	"fmt"
 	"os"
 	"path/filepath"
 	"regexp"
 	"strings"
+	"time"
 
 	"github.com/lidofinance/dc4bc/client/api/dto"
 	"github.com/lidofinance/dc4bc/client/modules/keystore"
 	"github.com/lidofinance/dc4bc/storage"
 )
+
+var stampRe = regexp.MustCompile(`"[0-9]{4}-[0-9]{2}-[0-9]{2}T[0-9:.]+(Z|[+-][0-9]{2}:[0-9]{2})"`)
 
 var longIntRe = regexp.MustCompile(`([=:])-?[0-9]{16,}`)
 
@@ -156,14 +161,14 @@ func (r *nodeRun) consume(c *cluster, n *vnode, upto int, restarts bool) int {
 		}
 		total += len(evs)
 		if restarts && r.rng.Intn(5) == 0 {
-			mute, filter := n.stg.mute, n.stg.filter
+			mute, filter, rewrite := n.stg.mute, n.stg.filter, n.stg.rewrite
 			n.ldb.VerifClose()
 			n.stg.Close()
 			if err := c.buildNodeServices(n); err != nil {
 				r.mon("harness: restart: " + err.Error())
 				return total
 			}
-			n.stg.mute, n.stg.filter = mute, filter
+			n.stg.mute, n.stg.filter, n.stg.rewrite = mute, filter, rewrite
 		}
 	}
 	return total
@@ -269,6 +274,42 @@ func (r *nodeRun) c08Checks(c *cluster, obs *vnode, rounds []string) {
 			st.C08Compared++
 			if p, q := publicProj(rep, R), publicProj(j, R); p != q {
 				r.mon(fmt.Sprintf("C08 round_noninterference: round %s… on %s differs between the interleaved board and the board without the other rounds %s", R[:8], j.name, firstDiff(q, p)))
+			}
+			rep.closeReplica()
+		}
+	}
+	// (4b) the clock of the replaying node is not an input: the same log with every stamp in it moved back by the same
+	// 30 days (each message re-signed by its sender's key, as the sender would have signed it then) is, to the node, the
+	// log replayed a month later; every distance inside the log is unchanged, so the time-free projection must be too
+	{
+		keys := map[string]ed25519.PrivateKey{}
+		for _, nd := range c.nodes {
+			keys[nd.name] = nd.kp.Priv
+		}
+		shifted := 0
+		rep, err := c.replica(j.idx, "late", nil)
+		if err == nil {
+			rep.stg.rewrite = func(m storage.Message) storage.Message {
+				moved := stampRe.ReplaceAllFunc(m.Data, func(b []byte) []byte {
+					t, err := time.Parse(time.RFC3339Nano, string(b[1:len(b)-1]))
+					if err != nil || t.Year() < 2000 {
+						return b
+					}
+					shifted++
+					return []byte(`"` + t.Add(-30*24*time.Hour).Format(time.RFC3339Nano) + `"`)
+				})
+				if priv, ok := keys[m.SenderAddr]; ok && len(m.Signature) > 0 && !bytes.Equal(moved, m.Data) {
+					m.Data = moved
+					m.Signature = ed25519.Sign(priv, m.Data)
+				}
+				return m
+			}
+			r.consume(c, rep, 0, false)
+			st.C08Compared++
+			st.C08Late++
+			st.C08StampsMoved += shifted
+			if p := publicProj(rep, ""); p != live {
+				r.mon(fmt.Sprintf("C08 clock_independent: %s rebuilt by replaying the %d messages with every stamp in them moved 30 days back (the log read a month later) differs from the live node %s", j.name, logLen, firstDiff(live, p)))
 			}
 			rep.closeReplica()
 		}
